@@ -311,3 +311,23 @@ pub fn dmsgs(v: &[DTLSMessage]) -> Value {
 pub fn dplain(p: &DTLSPlaintext) -> Value {
     json!({"hdr":dhdr(&p.header),"msgs":dmsgs(&p.messages)})
 }
+
+/// Replace raw slices by their contents (content shape, for values compared with abstract values).
+pub fn materialize(v: &mut Value, input: &[u8]) {
+    match v {
+        Value::Array(a) => a.iter_mut().for_each(|x| materialize(x, input)),
+        Value::Object(m) => {
+            if m.contains_key("@o") {
+                let addr = m["@o"].as_u64().unwrap() as usize;
+                let l = m["l"].as_u64().unwrap() as usize;
+                let base = input.as_ptr() as usize;
+                *v = if l == 0 { json!([]) }
+                     else if addr >= base && addr + l <= base + input.len() { json!(&input[addr - base..addr - base + l]) }
+                     else { json!("foreign") };
+            } else {
+                m.iter_mut().for_each(|(_, x)| materialize(x, input));
+            }
+        }
+        _ => {}
+    }
+}
